@@ -59,7 +59,7 @@ func oracleC14(x *Exec, so *StepObs) {
 		return
 	}
 	x.Res.Checks += 2
-	mustReject := !op.SkipSchema && (violates == "root" || (violates == "sub" && subEnabled))
+	mustReject := !op.SkipSchema && (violates == "root" || (violates == "sub" && subEnabled) || violates == "sib")
 	mode := "real"
 	if isDryOp(op) {
 		mode = "dry"
@@ -72,6 +72,9 @@ func oracleC14(x *Exec, so *StepObs) {
 			return
 		}
 		name := cs.Name
+		if violates == "sib" {
+			name = "subtwo"
+		}
 		if violates == "sub" {
 			name = cs.Subcharts[0].Name
 			if cs.Subcharts[0].Alias != "" {
@@ -114,6 +117,7 @@ func genC14(seed, index uint64, tier string) *Plan {
 	p := &Plan{Check: "C14", Seed: seed, Index: index, Namespace: "ns1", Release: "rel", ClientTOs: 30}
 	p.Backend = g.Backend()
 	withSub := g.Chance(0.6)
+	withSib := withSub && g.Chance(0.5)
 	alias := ""
 	if withSub && g.Chance(0.3) {
 		alias = "aliased"
@@ -132,14 +136,22 @@ func genC14(seed, index uint64, tier string) *Plan {
 			sc := SubchartSpec{Name: "subone", Alias: alias, Condition: "subon", Values: map[string]interface{}{"s": "fine", "size": float64(1)}, Schema: c14SubSchema}
 			sc.Slots = []ResSlot{{Kind: "ConfigMap", Name: "sub-cm1", File: "s.yaml", Marker: g.Marker(), Data: map[string]string{"s": "$s"}}}
 			cs.Subcharts = []SubchartSpec{sc}
+			if withSib {
+				// a sibling with a schema of its own (never disabled): every dependency is checked, not only the first
+				sib := SubchartSpec{Name: "subtwo", Values: map[string]interface{}{"s": "fine", "size": float64(2)}, Schema: c14SubSchema}
+				sib.Slots = []ResSlot{{Kind: "ConfigMap", Name: "sub-cm2", File: "s.yaml", Marker: g.Marker(), Data: map[string]string{"s": "$s"}}}
+				cs.Subcharts = append(cs.Subcharts, sib)
+			}
 		}
 		return cs
 	}
 	// version 0 has no root schema (so that any values can be installed first), version 1 has it
 	p.Charts = []ChartSpec{mk("1.0.0", false), mk("1.1.0", true)}
 	if withSub {
-		// version 0 must accept anything for the subchart too
-		p.Charts[0].Subcharts[0].Schema = ""
+		// version 0 must accept anything for the subcharts too
+		for i := range p.Charts[0].Subcharts {
+			p.Charts[0].Subcharts[i].Schema = ""
+		}
 	}
 	draw := func() (vals map[string]interface{}, violates, rule string, subEnabled bool) {
 		vals = map[string]interface{}{}
@@ -149,7 +161,23 @@ func genC14(seed, index uint64, tier string) *Plan {
 			vals["subon"] = false
 			subEnabled = false
 		}
-		switch g.Weighted(4, 5, 4) {
+		switch g.Weighted(4, 5, 4, 3) {
+		case 3:
+			if !withSib {
+				break
+			}
+			violates = "sib"
+			switch g.N(3) {
+			case 0:
+				vals["subtwo"] = map[string]interface{}{"s": float64(5)}
+				rule = "type"
+			case 1:
+				vals["subtwo"] = map[string]interface{}{"size": float64(9)}
+				rule = "maximum"
+			case 2:
+				vals["subtwo"] = map[string]interface{}{"s": nil}
+				rule = "required"
+			}
 		case 0:
 			if g.Chance(0.5) {
 				vals["count"] = float64(1 + g.N(10))
@@ -190,6 +218,9 @@ func genC14(seed, index uint64, tier string) *Plan {
 				// a global the subchart's schema constrains (the root schema says nothing about it)
 				vals["global"] = map[string]interface{}{"tier": "bogus"}
 				rule = "global-enum"
+				if withSib {
+					violates = "sib" // the always-enabled sibling's schema sees the same global
+				}
 			case 0:
 				vals[subKey] = map[string]interface{}{"s": float64(5)}
 				rule = "type"
